@@ -8,6 +8,7 @@ package main
 import (
 	"fmt"
 	"os"
+	"runtime"
 	"sort"
 	"strconv"
 	"strings"
@@ -54,7 +55,7 @@ func main() {
 				classes[c] = append(classes[c], fmt.Sprintf("%s   [%s:%d]", k, f.Name, i))
 			}
 		}
-		fmt.Printf("%s size=%d step=%d evaluated=%d skipped=%d\n", f.Name, f.Size, step, evals, skipped)
+		fmt.Printf("%s size=%d step=%d evaluated=%d skipped=%d goroutines=%d\n", f.Name, f.Size, step, evals, skipped, runtime.NumGoroutine())
 		var ks []string
 		for k := range fam.Why {
 			ks = append(ks, k)
